@@ -27,7 +27,7 @@ RULE = ('Archives of 0..5 members (duplicate names, sizes 0..200 odd and even, c
         'a second ArFile on the same path whose members are read alternately with the first.  Non-trivial: >= 2 members, history touches >= 2 of them and contains a readline* '
         'or a seek followed by a read.')
 ASSUMPTIONS = ['only the compared interface of the statement: read(n>=1)/read(), readline(n>=1)/readline(), readlines(), seek with '
-               'non-negative targets, tell(); read(0) (documented "all"), readlines(hint), seek return values, __iter__ excluded',
+               'non-negative targets, tell(); readline(0) (nothing) and readline(-1) (a whole line) as for any file; read(0) (documented "all"), readlines(hint), seek return values, __iter__ excluded',
                'short member names only (<= 15 bytes, no "/" inside); archives are well-formed (odd members padded)',
                'member names are packed as UTF-8 bytes; the str a listing shows is those bytes decoded with the file-system encoding and '
                'surrogateescape (the documented default of ArFile), whatever the locale of the process is']
@@ -36,11 +36,11 @@ ANCHORS = ['debian.arfile:ArFile.__collect_members', 'debian.arfile:ArMember.fro
            'debian.arfile:ArMember.tell', 'debian.arfile:ArFile.getmember']
 MUST_REACH = ANCHORS
 FLOORS = {'quick': {'nontrivial': 800, 'monitors': {'M.op': 30000, 'K9': 10000, 'M.listing': 1000, 'M.listing-again': 1000},
-                    'counters': {'fileobj-kind:tempfile': 450, 'fileobj-kind:rawio': 450, 'fileobj-kind:fdopen': 450, 'fileobj-kind:unlinked': 450, 'fileobj-kind:replaced': 450,
+                    'counters': {'readline-size-zero-or-negative': 1200, 'sibling-members-dropped-before-reads': 700, 'fileobj-kind:tempfile': 450, 'fileobj-kind:rawio': 450, 'fileobj-kind:fdopen': 450, 'fileobj-kind:unlinked': 450, 'fileobj-kind:replaced': 450,
                                  'archive-object-dropped-before-reads': 2400, 'filename:members-dropped-unclosed': 1300,
                                  'filename:path_reuse': 1300, 'filename:twin': 650, 'op-through-twin': 4000}},
           'thorough': {'nontrivial': 40000, 'monitors': {'M.op': 1500000, 'K9': 500000, 'M.listing': 50000, 'M.listing-again': 50000},
-                       'counters': {'fileobj-kind:tempfile': 45000, 'fileobj-kind:rawio': 45000, 'fileobj-kind:fdopen': 45000, 'fileobj-kind:unlinked': 45000, 'fileobj-kind:replaced': 45000,
+                       'counters': {'readline-size-zero-or-negative': 120000, 'sibling-members-dropped-before-reads': 70000, 'fileobj-kind:tempfile': 45000, 'fileobj-kind:rawio': 45000, 'fileobj-kind:fdopen': 45000, 'fileobj-kind:unlinked': 45000, 'fileobj-kind:replaced': 45000,
                                     'archive-object-dropped-before-reads': 120000, 'filename:members-dropped-unclosed': 65000,
                                     'filename:path_reuse': 65000, 'filename:twin': 32000, 'op-through-twin': 200000}}}
 LEVEL_TEXT = ('Runtime monitoring: seeded interleaved operation histories on live ArMember objects, each result compared with an '
@@ -109,7 +109,7 @@ def gen_ops(r, members, n):
         elif k < .45:
             ops.append([i, 'readline'])
         elif k < .57:
-            ops.append([i, 'readline', r.choice([1, 2, 3, 7, 50, size + 1, max(1, size)])])
+            ops.append([i, 'readline', r.choice([1, 2, 3, 7, 50, size + 1, max(1, size), 0, -1])])
         elif k < .65:
             ops.append([i, 'readlines'])
         elif k < .78:
@@ -141,6 +141,7 @@ def cases(ctx):
         # the archive object dropped while its members are still read; members never close()d, only dropped; the same
         # path rewritten with the next archive; a second ArFile on the same path read alternately with the first
         case['drop_ar'] = r.random() < .3
+        case['drop_siblings'] = case['drop_ar'] and r.random() < .5
         if case['mode'] == 'fileobj':
             case['fobj'] = r.choice(['bytesio', 'bytesio', 'bytesio', 'tempfile', 'fdopen', 'unlinked', 'replaced', 'rawio'])
         if case['mode'] == 'filename':
@@ -354,6 +355,13 @@ def _history(ctx, case, holder, members, ops, raw, tf):
         # the members outlive the archive object they came from
         del ar
         del holder['ars'][:]
+        if case.get('drop_siblings') and not twin and nm >= 2:
+            # ... and only SOME of the members are kept by the caller: the others die with the archive object
+            # (m = ArFile(...).getmember(name)); the survivors still read their own bytes
+            live = [m if j % 2 == 0 else None for j, m in enumerate(live)]
+            holder['live'] = [m for m in live if m is not None]
+            m = None
+            ctx.count('sibling-members-dropped-before-reads')
         import gc
         gc.collect()
         ctx.count('archive-object-dropped-before-reads')
@@ -381,6 +389,8 @@ def _history(ctx, case, holder, members, ops, raw, tf):
             i += nm                 # the same member through the second ArFile on that path
             ctx.count('op-through-twin')
         m, sh = live[i], shadows[i]
+        if m is None:
+            continue                # that member was dropped by the caller
         touched.add(i % nm)
         ctx.count('op:' + kind)
         ctx.mon('M.op')
@@ -390,6 +400,8 @@ def _history(ctx, case, holder, members, ops, raw, tf):
             seek_then_read = seek_then_read or last_was_seek.get(i, False)
         elif kind == 'readline':
             got, want = (m.readline(), sh.readline()) if len(op) == 2 else (m.readline(op[2]), sh.readline(op[2]))
+            if len(op) > 2 and op[2] <= 0:
+                ctx.count('readline-size-zero-or-negative')
             has_rl = True
             seek_then_read = seek_then_read or last_was_seek.get(i, False)
         elif kind == 'readlines':
